@@ -133,6 +133,9 @@ def spectral(env, m, n):
             seen.append(X)
             return None, s.copy(), None
         env.R.qsvd.classical_qsvd_full = stub
+        # if the routine goes to LAPACK directly, it gets arbitrary values too (the clause below then fails)
+        env.stub_linalg('svd', lambda a, *args, **kw: env.rarr('lapack_s', (min(a.shape),)) if kw.get('compute_uv') is False
+                        else (None, env.rarr('lapack_s', (min(a.shape),)), None))
         try:
             r = U.matrix_norm(env.twist(A), 2)
             r2 = U.spectral_norm_2(A)
